@@ -139,6 +139,19 @@ fn check_form(ctx: &mut Ctx, texts: &[TextField], files: &[FileField], faults: W
     };
     ctx.count(["request_plain", "request_plain", "request_from_session_with_default_content_type", "request_with_bare_multipart_content_type", "request_with_two_appended_content_types"][variant], 1);
     let descr = || format!("{} request variant {variant}", descr());
+    // a third of the requests are looked at first (a logging or signing layer would): asking the
+    // body for its content type - once, twice - does not use it up
+    let mut rb = rb;
+    if (texts.len() + files.len()) % 3 == 1 {
+        use attohttpc::body::Body;
+        let first = rb.inspect().body().content_type().ok().flatten();
+        let second = rb.inspect().body().content_type().ok().flatten();
+        ctx.count("requests_inspected_before_prepare", 1);
+        if first.is_none() || first != second {
+            ctx.violation("content-type-not-repeatable", format!("inspect().body().content_type() gave {first:?} and then {second:?}; {}", descr()));
+            return;
+        }
+    }
     let prepared = match rb.try_prepare() {
         Ok(p) => p,
         Err(e) => {
